@@ -108,10 +108,12 @@ func exec(ops []string, o *vu.Out) {
 			b := vu.MustHex(t[1])
 			res := vu.Catch(func() string { return "ok " + vu.Hex(quicwire.AppendUint8Bytes(nil, b)) })
 			o.Op(op, res)
-			if len(b) <= 255 {
+			// Whatever AppendUint8Bytes accepts (does not panic on) must read back: a value
+			// too long for the 8-bit prefix has to be refused, not encoded with a wrapped length.
+			if strings.HasPrefix(res, "ok ") {
 				got, n := quicwire.ConsumeUint8Bytes(append(quicwire.AppendUint8Bytes(nil, b), 0xaa))
 				if n != len(b)+1 || !bytes.Equal(got, b) {
-					o.Fail("", fmt.Sprintf("uint8 bytes round-trip failed for %x", b))
+					o.Fail("", fmt.Sprintf("uint8 bytes round-trip failed for a %d-byte value %x: consumed n=%d, %d bytes back", len(b), b, n, len(got)))
 				}
 			}
 		case "vbappend":
